@@ -369,7 +369,12 @@ TEXT_EDITS_COLS = ["none", "blank-line-end", "blank-line-middle", "blanks-line",
                    "blanks-in-value", "mainruns-prefix-line", "channel-as-substring", "lines-too-short",
                    "scan-not-integer", "scan-not-integer-all", "scan-float", "scan-negative", "scan-empty", "line-with-extra-field",
                    "line-without-trailing-delimiter", "line-missing", "single-line-name"]
-STRICT_ROWS = set(TEXT_EDITS_ROWS)
+# Header rows that differ in number or length (a missing fourth row, one row without its trailing delimiter, one row with an
+# extra field): whether such a file is imported or refused hangs on HOW the four rows are combined (NumPy broadcasting of masks
+# raises, a zip over the rows stops at the shortest) — no clause of the property speaks about it and the file is outside the
+# quantifier, so by DESIGN 13.2 these edits are soft: a difference in whether pewlib and the model import is recorded only.
+HEADER_SHAPE_EDITS = {"three-header-lines", "one-header-row-without-trailing-delimiter", "header-row-longer"}
+STRICT_ROWS = set(TEXT_EDITS_ROWS) - HEADER_SHAPE_EDITS
 
 
 def is_strict(case) -> bool:
